@@ -175,7 +175,9 @@ class ObservableResource(Resource, interfaces.ObservableResource):
         should be sent to observers."""
 
         for o in self._observations:
-            o.trigger(response)
+            # Each observer's notification gets its own token, remote and
+            # message ID set on the way out, so they can't share one message.
+            o.trigger(response.copy() if response is not None else None)
 
     def get_link_description(self):
         link = super(ObservableResource, self).get_link_description()
